@@ -1029,11 +1029,11 @@ variable {root : PPath}
 theorem deleteOld_ext (v : Bytes → Bool) (path : Bytes) (st : St) (lead : List Name) (last : Name)
     (hsplit : splitOn pathSep path = lead ++ [last]) (hcl : Clean (lead ++ [last]))
     (hd : DirChain st.fs root lead lead.length) :
-    Ext root (lead ++ [last]) st (deleteOld v root path st).1 := by
-  unfold deleteOld
+    Ext root (lead ++ [last]) st (deleteOldG false v root path st).1 := by
+  unfold deleteOldG
   split
   · exact Ext.refl _ _ _
-  · simp only [hsplit]
+  · simp only [hsplit, Bool.false_eq_true, if_false]
     rw [lstat_lex st.fs hcl hd]
     cases hP : st.fs (root ++ (lead ++ [last])) with
     | none => exact Ext.refl _ _ _
@@ -1054,4 +1054,113 @@ theorem deleteOld_ext (v : Bytes → Bool) (path : Bytes) (st : St) (lead : List
         exact ⟨by rw [List.take_length]; exact ht, set_keeps_dirs _ hnd⟩
 
 end delete
+section guarded
+variable {root : PPath}
+
+/-- a missing component strictly inside the path: every call on the path fails with ENOENT -/
+theorem resolve_absent_mid {fs : FS} {cs : List Name} {k : Nat} (fl : Bool) (hcl : Clean cs) (hk : k + 1 < cs.length)
+    (hd : DirChain fs root cs k) (hn : fs (root ++ cs.take (k + 1)) = none) :
+    resolve fs (fuelFor cs.length) root cs fl = .error .enoent := by
+  have hk' : k < cs.length := by omega
+  have hr := resolve_chain fs fl cs k (fuelFor cs.length) root hcl (by omega) (by simp [fuelFor]; omega) hd
+  have hdrop : cs.drop k = cs[k] :: cs.drop (k + 1) := List.drop_eq_getElem_cons hk'
+  have hf : fuelFor cs.length - k = (fuelFor cs.length - k - 1) + 1 := by simp [fuelFor]; omega
+  have hn' : fs (root ++ cs.take k ++ [cs[k]]) = none := by
+    rw [List.append_assoc, ← List.take_succ_eq_append_getElem hk']; exact hn
+  rw [hdrop, hf, resolve_one_absent fs _ _ cs[k] _ fl (hcl _ (List.getElem_mem hk')) hn'] at hr
+  have hne : cs.drop (k + 1) ≠ [] := by
+    intro h
+    have := congrArg List.length h
+    simp at this; omega
+  simpa [hne] using hr
+
+/-- **the guarded lstat is lexical**: whenever `_lstat_tracked_path` reports an object for `root/lead/last`, every
+leading component is a real directory, so the object is the one at the lexical path inside the work tree — for
+EVERY file system. -/
+theorem lstatTracked_lexical {fs : FS} {lead : List Name} {last : Name} {n : Node} (hcl : Clean (lead ++ [last]))
+    (h : lstatTracked fs root (lead ++ [last]) = .ok n) :
+    DirChain fs root lead lead.length ∧ fs (root ++ (lead ++ [last])) = some n := by
+  have hcll : Clean lead := fun c hc => hcl c (List.mem_append_left _ hc)
+  have hdl : (lead ++ [last]).dropLast = lead := by simp
+  unfold lstatTracked at h
+  cases hver : verifyLeadingDirs fs root (lead ++ [last]) [] with
+  | error e => rw [hver] at h; cases e <;> simp at h
+  | ok safe' =>
+    rw [hver] at h
+    simp only at h
+    have hchain : DirChain fs root lead lead.length := by
+      by_cases hl0 : lead = []
+      · subst hl0; intro i h1 h2; simp at h2; omega
+      · have := verifyLeadingDirs_spec (root := root) (comps := lead ++ [last]) (by rw [hdl]; exact hcll)
+          (by rw [hdl]; exact hl0) (fun i h1 h2 => by simp at h2; omega) hver
+        rw [hdl] at this
+        obtain ⟨⟨j, hj, hd, hcase⟩, _⟩ := this
+        rcases hcase with hje | hn | ⟨hj1, ct, md, hf⟩
+        · rw [← hje]; exact hd
+        · exfalso
+          have hjl : j < lead.length := by
+            rcases Nat.lt_or_ge j lead.length with h' | h'
+            · exact h'
+            · exfalso
+              have hje : j = lead.length := by omega
+              subst hje
+              rw [List.take_of_length_le (by omega)] at hn
+              have hpos : 1 ≤ lead.length := by
+                cases lead with
+                | nil => exact absurd rfl hl0
+                | cons a l => simp
+              have := hd lead.length hpos (Nat.le_refl _)
+              rw [List.take_length, hn] at this; cases this
+          have hr := resolve_absent_mid (root := root) (cs := lead ++ [last]) (k := j) false hcl (by simp; omega)
+            (hd.append [last] (by omega)) (by rw [List.take_append_of_le_length (by omega)]; exact hn)
+          simp only [lstat, hr] at h
+          cases h
+        · exfalso
+          have hne : lead ≠ [] := hl0
+          obtain ⟨l2, mid, rfl⟩ : ∃ l2 mid, lead = l2 ++ [mid] :=
+            ⟨lead.dropLast, lead.getLast hne, (List.dropLast_concat_getLast hne).symm⟩
+          have hjl : j = l2.length := by simp at hj1; omega
+          have hd2 : DirChain fs root l2 l2.length := by
+            intro i h1 h2
+            have := hd i h1 (by omega)
+            rwa [List.take_append_of_le_length h2] at this
+          have e : l2 ++ [mid] ++ [last] = l2 ++ [mid, last] := by simp
+          have hr := resolve_parent_file fs root l2 mid last false (by rw [← e]; exact hcl) hd2 hf
+          simp only [lstat] at h
+          rw [e, hr] at h
+          simp at h
+    refine ⟨hchain, ?_⟩
+    rw [lstat_lex fs hcl hchain] at h
+    cases hP : fs (root ++ (lead ++ [last])) with
+    | none => rw [hP] at h; simp at h
+    | some n' => rw [hP] at h; simp at h; rw [h]
+
+/-- the guarded delete of one old path is confined for EVERY file system -/
+theorem deleteOldG_guarded_ext (v : Bytes → Bool) (path : Bytes) (st : St) (lead : List Name) (last : Name)
+    (hsplit : splitOn pathSep path = lead ++ [last]) (hcl : Clean (lead ++ [last])) :
+    Ext root (lead ++ [last]) st (deleteOldG true v root path st).1 := by
+  unfold deleteOldG
+  split
+  · exact Ext.refl _ _ _
+  · simp only [hsplit, if_true]
+    cases hl : lstatTracked st.fs root (lead ++ [last]) with
+    | error e => cases e <;> exact Ext.refl _ _ _
+    | ok n =>
+      obtain ⟨hd, hP⟩ := lstatTracked_lexical hcl hl
+      have hr := resolve_lex_nofollow st.fs root lead last hcl hd
+      cases n with
+      | dir => exact Ext.refl _ _ _
+      | file c md =>
+        apply Ext.of_apply st _ (lead ++ [last]).length ⟨by simp, Nat.le_refl _⟩
+        intro fs' m h
+        obtain ⟨ht, hnd, rfl⟩ := sysUnlink_spec hr h
+        exact ⟨by rw [List.take_length]; exact ht, set_keeps_dirs _ hnd⟩
+      | link t =>
+        apply Ext.of_apply st _ (lead ++ [last]).length ⟨by simp, Nat.le_refl _⟩
+        intro fs' m h
+        obtain ⟨ht, hnd, rfl⟩ := sysUnlink_spec hr h
+        exact ⟨by rw [List.take_length]; exact ht, set_keeps_dirs _ hnd⟩
+
+end guarded
+
 end Dulwich.Checkout
